@@ -41,3 +41,24 @@ M("c05-D4-regress", "C05", "decoder/bds/bds06.py", "    if abs(lat_ref - lat_odd
 M("c05-D5-regress", "C05", "decoder/bds/bds06.py", "    dls = [abs((lon_ref - lon + 180) % 360 - 180) for lon in lons]", "    dls = [abs(lon_ref - lon) for lon in lons]")
 M("c05-noref", "C05", "decoder/adsb.py", "        if lat_ref is None or lon_ref is None:", "        if lat_ref is None and lon_ref is None:")
 M("c05-timeorder", "C05", "decoder/bds/bds06.py", "    if t0 > t1:  # type: ignore\n        lat = lat_even\n        nl = common.cprNL(lat_even)", "    if t0 >= t1:  # type: ignore\n        lat = lat_even\n        nl = common.cprNL(lat_even)", equivalent=True)
+
+# ---- C07
+M("c07-swap", "C07", "py_common.py", "graystr = D2 + D4 + A1 + A2 + A4 + B1 + B2 + B4 + C1 + C2 + C4", "graystr = B2 + D4 + A1 + A2 + A4 + B1 + D2 + B4 + C1 + C2 + C4")
+M("c07-n100", "C07", "py_common.py", "    if n100 == 7:\n        n100 = 5\n", "    if n100 == 7:\n        n100 = 4\n")
+M("c07-slice", "C07", "py_common.py", "            vbin = binstr[:6] + binstr[7] + binstr[9:]", "            vbin = binstr[:6] + binstr[8] + binstr[9:]")
+M("c07-offset", "C07", "py_common.py", "alt = bin2int(vbin) * 25 - 1000", "alt = bin2int(vbin) * 25 - 1000 + (25 if bin2int(vbin) == 1201 else 0)")
+M("c07-gnss", "C07", "decoder/bds/bds05.py", "        return common.bin2int(altbin) * 3.28084  # type: ignore", "        return common.bin2int(altbin[1:]) * 3.28084  # type: ignore")
+M("c07-widen", "C07", "decoder/bds/bds05.py", '        altcode = altbin[0:6] + "0" + altbin[6:]', '        altcode = altbin[0:7] + "0" + altbin[7:]')
+M("c07-surface", "C07", "decoder/adsb.py", "    elif tc >= 5 and tc <= 8:\n        # surface position, altitude 0\n        return 0", "    elif tc >= 5 and tc <= 8:\n        # surface position, altitude 0\n        return None")
+M("c07-illegal", "C07", "py_common.py", "    if n100 in [0, 5, 6]:\n        return None", "    if n100 in [0, 6]:\n        return None")
+
+# ---- C08
+M("c08-swapB", "C08", "py_common.py", "    byte2 = int(B4 + B2 + B1, 2)", "    byte2 = int(B2 + B4 + B1, 2)")
+M("c08-iis", "C08", "decoder/surv.py", "    iis = common.bin2int(msgbin[13:17])", "    iis = common.bin2int(msgbin[13:16])")
+M("c08-corrupt", "C08", "decoder/allcall.py", "    if remainder > 79:", "    if remainder > 63:")
+M("c08-guard", "C08", "decoder/surv.py", "        if df not in [4, 5]:", "        if df not in [4, 5, 20]:")
+M("c08-tc28", "C08", "decoder/bds/bds61.py", "    idcode = msgbin[43:56]", "    idcode = msgbin[44:57]")
+M("c08-pyx-D1", "C08", "c_common.pyx", "    if len(binstr) != 13 or not set(binstr).issubset(set('01')):", "    if len(binstr) != 13 or set(binstr) != set('01'):")
+M("c08-pyx-perm", "C08", "c_common.pyx", "    cdef unsigned char B2 = mbin[9]\n    cdef unsigned char D2 = mbin[10]", "    cdef unsigned char B2 = mbin[10]\n    cdef unsigned char D2 = mbin[9]")
+M("c08-si", "C08", "decoder/allcall.py", '        IC = "SI" + str(remainder - 16)', '        IC = "SI" + str(remainder - 15)')
+M("c08-idcode-df", "C08", "py_common.py", "    if df(msg) not in [5, 21]:", "    if df(msg) not in [5, 21, 4]:")
